@@ -19,10 +19,13 @@ pub enum Regime {
 	Gap,
 	ZeroVolume,
 	Degenerate,
+	/// market data on a tick grid: every price is a small integer multiple of a power-of-two tick, bars are a few
+	/// ticks high, so price moves are exact and equal moves, equal highs/lows, inside and outside bars occur all the time
+	TickGrid,
 }
 
 pub const CALM: [Regime; 4] = [Regime::Walk, Regime::ZigZag, Regime::MonoUp, Regime::MonoDown];
-pub const ALL: [Regime; 12] = [
+pub const ALL: [Regime; 13] = [
 	Regime::Walk,
 	Regime::ZigZag,
 	Regime::MonoUp,
@@ -35,6 +38,7 @@ pub const ALL: [Regime; 12] = [
 	Regime::Gap,
 	Regime::ZeroVolume,
 	Regime::Degenerate,
+	Regime::TickGrid,
 ];
 
 #[derive(Clone, Debug)]
@@ -217,6 +221,22 @@ pub fn values(r: &mut Rng, len: usize, cfg: &FeedCfg, fc: &mut FaultCount) -> Ve
 				emit(&mut out, x, cfg);
 				bump(fc, "feed:gap");
 			}
+			Regime::TickGrid => {
+				let mut tick = tick_of(x.abs().max(sigma), r);
+				if cfg.integer {
+					tick = tick.max(1.0);
+				}
+				let mut k = (x / tick).round();
+				for _ in 0..n {
+					k += r.below(7) as f64 - 3.0;
+					if !cfg.signed && k < 1.0 {
+						k = 1.0;
+					}
+					out.push(vt(k * tick));
+				}
+				x = k * tick;
+				bump(fc, "feed:tick_grid");
+			}
 			Regime::ZeroVolume | Regime::Degenerate => {
 				// meaningful for candles only; for raw values: exact zeros
 				if cfg.signed {
@@ -354,6 +374,22 @@ pub fn candles(r: &mut Rng, len: usize, cfg: &FeedCfg, fc: &mut FaultCount) -> V
 				}
 				bump(fc, "feed:zero_volume");
 			}
+			Regime::TickGrid => {
+				let tick = tick_of(c, r);
+				let mut k = (c / tick).round().max(8.0);
+				let vq = vol_scale * 0.25;
+				for _ in 0..n {
+					let o = (k + if r.chance(0.15) { r.below(5) as f64 - 2.0 } else { 0.0 }).max(4.0);
+					let cl = (o + r.below(7) as f64 - 3.0).max(4.0);
+					let h = o.max(cl) + r.below(3) as f64;
+					let l = (o.min(cl) - r.below(3) as f64).max(1.0);
+					let v = vq * r.below(6) as f64;
+					out.push([vt(o * tick), vt(h * tick), vt(l * tick), vt(cl * tick), vt(v)]);
+					k = cl;
+				}
+				c = k * tick;
+				bump(fc, "feed:tick_grid");
+			}
 			Regime::Degenerate => {
 				for _ in 0..n.min(4) {
 					let x = vt(c);
@@ -368,6 +404,13 @@ pub fn candles(r: &mut Rng, len: usize, cfg: &FeedCfg, fc: &mut FaultCount) -> V
 	}
 	out.truncate(len);
 	out
+}
+
+/// a power-of-two tick that puts the level `c` at a few hundred to a few thousand ticks (exact in single precision too)
+fn tick_of(c: f64, r: &mut Rng) -> f64 {
+	let per = 64.0 * (1 + r.below(16)) as f64;
+	let t = (c.abs().max(f64::MIN_POSITIVE * 1e20) / per).log2().floor();
+	2f64.powi(t.clamp(-900.0, 900.0) as i32)
 }
 
 pub fn valid_candle(c: &[f64; 5]) -> bool {
